@@ -299,8 +299,8 @@ type jscenario struct {
 	Focus    string `json:"focus"`
 }
 
-var topicSets = [][]string{{""}, {"t"}, {"", "t"}, {"u"}, {"t", "v"}, {}}
-var pubTopicSets = [][]string{{""}, {"t"}, {"", "t"}, {"v"}}
+var topicSets = [][]string{{""}, {"t"}, {"", "t"}, {"u"}, {"t", "v"}, {}, {"t", "t"}}
+var pubTopicSets = [][]string{{""}, {"t"}, {"", "t"}, {"v"}, {"t", "t", ""}}
 
 // runScenario runs one seeded scenario; it returns the events, or blocked=true with a goroutine dump.
 func runScenario(seed int64, focus string) (evs []jev, blocked bool, dump string) {
